@@ -18,10 +18,18 @@ TRUSTED_BASE = [
 ]
 
 
+def _unlimit_stack():
+    import resource
+    try:
+        resource.setrlimit(resource.RLIMIT_STACK, (resource.RLIM_INFINITY, resource.RLIM_INFINITY))
+    except Exception:
+        pass
+
+
 def sh(cmd, timeout=None, cwd=None, env=None):
     t0 = time.time()
     try:
-        p = subprocess.run(cmd, shell=isinstance(cmd, str), cwd=cwd, env=env, timeout=timeout,
+        p = subprocess.run(cmd, shell=isinstance(cmd, str), cwd=cwd, env=env, timeout=timeout, preexec_fn=_unlimit_stack,
                            stdout=subprocess.PIPE, stderr=subprocess.STDOUT, text=True, errors='replace')
         return p.returncode, p.stdout, time.time() - t0
     except subprocess.TimeoutExpired as ex:
@@ -248,7 +256,7 @@ def eval_in_coq(prop, header, exprs, chunk=400, jobs=16, tag='cases'):
 
     def launch(name):
         return subprocess.Popen(['timeout', str(COQC_TIMEOUT), 'coqc', '-R', COQ, 'SSJ', '-w', '-notation-overridden',
-                                 name + '.v'], cwd=d, stdout=subprocess.PIPE, stderr=subprocess.STDOUT, text=True)
+                                 name + '.v'], cwd=d, stdout=subprocess.PIPE, stderr=subprocess.STDOUT, text=True, preexec_fn=_unlimit_stack)
     pending = list(files)
     running = []
     while pending or running:
